@@ -215,7 +215,7 @@ fn cbrt_inputs(o: &Opts, rng: &mut Rng) -> Vec<f32> {
         }
     }
     // strided sweep of all positive normals, worst-by-screen per stratum (untrusted f64 screen)
-    let (stride, strata) = if o.thorough { (64u32, 8192usize) } else { (8191u32, 512usize) };
+    let (stride, strata) = if o.thorough { (64u32, 8192usize) } else { (1021u32, 768usize) };
     let lo = 0x0080_0000u32;
     let hi = 0x7f7f_ffffu32;
     let per = ((hi - lo) as usize / strata) + 1;
